@@ -403,12 +403,6 @@ Section Handle.
       destruct (target_count rd (s0 - rd_foff rd) ns Hrd ltac:(lia)) as [_ Htq]. rewrite (Htq Hrc). lia.
   Qed.
   (* ---------------------------------------------------------------- _GD_DoField *)
-  (* the two inputs of every MULTIPLY are defined on the same samples (unequal extents are the
-     business of properties C01/C16: the code then multiplies by an unread buffer) *)
-  Definition mult_ok : Prop :=
-    forall fuel f a b k, nth_error (d_fields d) f = Some (FMult a b) ->
-      (spec_val fuel d a k = None <-> spec_val fuel d b k = None).
-
   Lemma Pres_level_wrap s s2 :
     s_level s2 = s_level s + 1 -> (CohAll s -> CohAll s2) -> Pres s (set_level s2 (s_level s2 - 1)).
   Proof. intros Hl HC. split; [cbn; lia|]. intros H. apply CohAll_level. auto. Qed.
@@ -416,7 +410,7 @@ Section Handle.
   Lemma len_to_nat {A} (l : list A) : Z.to_nat (len l) = length l.
   Proof. unfold len. lia. Qed.
 
-  Lemma do_field_spec : mult_ok -> forall fuel s f fd first n,
+  Lemma do_field_spec : forall fuel s f fd first n,
     nth_error (d_fields d) f = Some fd -> (f + 2 <= fuel)%nat ->
     CohAll s -> s_level s + Z.of_nat fuel <= 31 -> 0 <= n ->
     first + n + Z.of_nat fuel * SHIFT_MAX <= INT64_MAX ->
@@ -429,7 +423,7 @@ Section Handle.
          r_fpos (get_rs s' r) + rd_foff (get_rd d r) =
            first + Z.of_nat (length (window (spec_val fuel d f) first (Z.to_nat n)))).
   Proof.
-    intros Hmult. induction fuel as [|fuel IH]; intros s f fd first n Ef Hfu HC Hlv Hn Hrg hk Hhk; [lia|].
+    induction fuel as [|fuel IH]; intros s f fd first n Ef Hfu HC Hlv Hn Hrg hk Hhk; [lia|].
     cbn [do_field]. rewrite Hhk.
     replace (s_level s + 1 >=? MAXREC) with false by (symmetry; rewrite Z.geb_leb; apply Z.leb_gt; unfold MAXREC; lia).
     assert (HSM : 0 < SHIFT_MAX) by (unfold SHIFT_MAX; lia).
@@ -502,17 +496,10 @@ Section Handle.
                    ltac:(specialize (Hrg' 0 ltac:(lia) (len (x :: l1')) Hlen1); lia) false eq_refl)
           as (s3 & -> & [Hl3 HC3] & _).
         rewrite len_to_nat.
-        set (l2 := window (spec_val fuel d b) first (length (x :: l1'))) in *.
-        assert (Hne : l2 <> []).
-        { unfold l2. apply window_head; [cbn; lia|].
-          assert (Ha0 : spec_val fuel d a first <> None).
-          { apply (window_nonempty _ _ (Z.to_nat n)). fold l1. rewrite El1. discriminate. }
-          intros Hb0. apply Ha0. apply (Hmult fuel f a b first Ef). exact Hb0. }
-        destruct l2 as [|y l2'] eqn:El2; [congruence|].
         eexists. split; [rewrite Hspec; reflexivity|].
         split; [apply Pres_level_wrap; [rewrite Hl3; exact Hl2|intros _; apply HC3, HC2, HC1]|intros ? Hfd; discriminate Hfd].
   Qed.
-  (* ---------------------------------------------------------------- every call keeps the invariant *)
+
   Lemma do_field_pres : forall fuel s f hk first n,
     (nth_error (d_fields d) f = None \/ (f + 2 <= fuel)%nat) ->
     CohAll s -> s_level s + Z.of_nat fuel <= 31 ->
@@ -631,23 +618,23 @@ Section Handle.
 
   (* an absolute read in any reachable state returns the window of the whole-field contents *)
   Lemma get_spec s f fd k n :
-    mult_ok -> InvH s -> nth_error (d_fields d) f = Some fd ->
+    InvH s -> nth_error (d_fields d) f = Some fd ->
     0 <= k <= 2 ^ 61 -> 0 <= n <= 2 ^ 61 ->
     snd (step dec d s (CGet f (Some k) n)) = RData (spec_window d f k n).
   Proof.
-    intros Hm [H0 HC] Ef Hk Hn. pose proof FUEL_small as HF. cbn [step].
+    intros [H0 HC] Ef Hk Hn. pose proof FUEL_small as HF. cbn [step].
     replace (k <? -1) with false by (symmetry; apply Z.ltb_ge; lia).
     destruct (fuel_ok f) as [Hf|Hf]; [congruence|].
-    destruct (do_field_spec Hm (FUEL d) s f fd k n Ef Hf HC ltac:(lia) ltac:(lia)
+    destruct (do_field_spec (FUEL d) s f fd k n Ef Hf HC ltac:(lia) ltac:(lia)
                ltac:(unfold SHIFT_MAX, INT64_MAX; lia) true) as (s' & -> & _ & _).
     { replace (k =? -1) with false by (symmetry; apply Z.eqb_neq; lia). reflexivity. }
     reflexivity.
   Qed.
 
   Theorem history_independent_l h f fd k n :
-    mult_ok -> nth_error (d_fields d) f = Some fd -> 0 <= k <= 2 ^ 61 -> 0 <= n <= 2 ^ 61 ->
+    nth_error (d_fields d) f = Some fd -> 0 <= k <= 2 ^ 61 -> 0 <= n <= 2 ^ 61 ->
     snd (step dec d (run dec d (init d) h) (CGet f (Some k) n)) = RData (spec_window d f k n).
-  Proof. intros Hm Ef Hk Hn. apply (get_spec _ f fd); auto. apply run_inv. apply init_inv. Qed.
+  Proof. intros Ef Hk Hn. apply (get_spec _ f fd); auto. apply run_inv. apply init_inv. Qed.
   (* ================================================================ I/O pointers of RAW fields (C17) *)
   Section RawPointer.
     Variables (f r : nat).
@@ -677,15 +664,15 @@ Section Handle.
 
     (* gd_getdata64 at an absolute position: the data, and the pointer afterwards *)
     Lemma get_raw_ptr s k n :
-      mult_ok -> InvH s -> 0 <= k <= 2 ^ 61 -> 0 <= n <= 2 ^ 61 ->
+      InvH s -> 0 <= k <= 2 ^ 61 -> 0 <= n <= 2 ^ 61 ->
       exists s', step dec d s (CGet f (Some k) n) = (s', RData (spec_window d f k n)) /\ InvH s' /\
         (spec_window d f k n <> [] ->
          r_open (get_rs s' r) = true /\ r_fpos (get_rs s' r) + rd_foff rd = k + len (spec_window d f k n)).
     Proof.
-      intros Hm [H0 HC] Hk Hn. pose proof FUEL_small as HF. cbn [step].
+      intros [H0 HC] Hk Hn. pose proof FUEL_small as HF. cbn [step].
       replace (k <? -1) with false by (symmetry; apply Z.ltb_ge; lia).
       destruct (fuel_ok f) as [Hf|Hf]; [congruence|].
-      destruct (do_field_spec Hm (FUEL d) s f (FRaw r) k n Ef Hf HC ltac:(lia) ltac:(lia)
+      destruct (do_field_spec (FUEL d) s f (FRaw r) k n Ef Hf HC ltac:(lia) ltac:(lia)
                  ltac:(unfold SHIFT_MAX, INT64_MAX; lia) true) as (s' & -> & HP & Hptr).
       { replace (k =? -1) with false by (symmetry; apply Z.eqb_neq; lia). reflexivity. }
       exists s'. split; [reflexivity|]. split; [apply (Pres_Inv _ _ HP); split; assumption|].
@@ -694,10 +681,10 @@ Section Handle.
 
     (* "after a successful gd_getdata that transferred m samples starting at k, gd_tell reports k+m" *)
     Lemma tell_after_get_raw s k n :
-      mult_ok -> InvH s -> 0 <= k <= 2 ^ 61 -> 0 <= n <= 2 ^ 61 -> spec_window d f k n <> [] ->
+      InvH s -> 0 <= k <= 2 ^ 61 -> 0 <= n <= 2 ^ 61 -> spec_window d f k n <> [] ->
       snd (step dec d (fst (step dec d s (CGet f (Some k) n))) (CTell f)) = RPos (k + len (spec_window d f k n)).
     Proof.
-      intros Hm HI Hk Hn Hne. destruct (get_raw_ptr s k n Hm HI Hk Hn) as (s' & -> & HI' & Hp).
+      intros HI Hk Hn Hne. destruct (get_raw_ptr s k n HI Hk Hn) as (s' & -> & HI' & Hp).
       destruct (Hp Hne) as [Ho Hfp]. cbn [fst]. rewrite (tell_raw s' HI' Ho). cbn [snd]. f_equal. exact Hfp.
     Qed.
 
@@ -785,11 +772,11 @@ Section Handle.
 
     (* a GD_HERE read returns the window starting at the position gd_tell reports *)
     Lemma here_raw s n :
-      mult_ok -> InvH s -> r_open (get_rs s r) = true ->
+      InvH s -> r_open (get_rs s r) = true ->
       0 <= r_fpos (get_rs s r) + rd_foff rd <= 2 ^ 61 -> 0 <= n <= 2 ^ 61 ->
       snd (step dec d s (CGet f None n)) = RData (spec_window d f (r_fpos (get_rs s r) + rd_foff rd) n).
     Proof.
-      intros Hm [H0 HC] Ho Hp Hn. pose proof FUEL_small as HF.
+      intros [H0 HC] Ho Hp Hn. pose proof FUEL_small as HF.
       set (p := r_fpos (get_rs s r) + rd_foff rd) in *.
       assert (Heq : do_field dec (FUEL d) d s f true (-1) n = do_field dec (FUEL d) d s f false p n).
       { destruct FUEL_S2 as [k Hk]. rewrite Hk.
@@ -797,7 +784,7 @@ Section Handle.
         apply (iopos_raw_open k (set_level s (s_level s + 1))); [cbn; rewrite H0; unfold MAXREC; lia|exact Ho]. }
       cbn [step]. replace (-1 <? -1) with false by reflexivity. rewrite Heq.
       destruct (fuel_ok f) as [Hf|Hf]; [congruence|].
-      destruct (do_field_spec Hm (FUEL d) s f (FRaw r) p n Ef Hf HC ltac:(lia) ltac:(lia)
+      destruct (do_field_spec (FUEL d) s f (FRaw r) p n Ef Hf HC ltac:(lia) ltac:(lia)
                  ltac:(unfold SHIFT_MAX, INT64_MAX; lia) false eq_refl) as (s' & -> & _).
       reflexivity.
     Qed.
